@@ -1,3 +1,6 @@
 """Tie-G: regenerate lean/LouModel/Gen/*.lean from /repo's current sources."""
+
+
 def generate():
-    pass
+    from . import extract_log
+    extract_log.generate()
